@@ -29,7 +29,8 @@ def h_acceptance(eng):
     # folders is newer than the cache file ...
     newer = [mt > w.cache_mtime for path, mt in w.mtimes.items() if path.endswith(".mo")]
     eng.prove("accept.no_source_newer_than_cache", z3.Not(z3.Or(newer)) if newer else True)
-    eng.prove("accept.every_folder_walked", z3.BoolVal(sorted(w.walked) == sorted(["MODEL"] + w.lib_folders)))
+    # (a library folder inside the model folder is reached twice: by the walk of the model folder and by its own)
+    eng.prove("accept.every_folder_walked", z3.BoolVal(set(["MODEL"] + w.lib_folders) <= set(w.walked)), walked=sorted(w.walked))
     eng.prove("accept.cache_file_exists", z3.Not(w.cache_absent))
     # ... it was written by this version ...
     eng.prove("accept.same_version", w.cached_version == w.current_version)
